@@ -60,9 +60,11 @@ def value_cases(rng, tier):
         out.append({"expr": sqf_string(s), "kind": "string", "chars": list(s)})
     for b in ("true", "false"):
         out.append({"expr": b, "kind": "bool"})
-    nums = ["0", "1", "-1", "0.5", "123456", "-123456", "1.5", "0.000123", "1e6", "1e7", "123456e3", "1e-5", "99999.9", "0.1", "3.14159", "-0"]
+    nums = ["0", "1", "-1", "0.5", "123456", "-123456", "1.5", "0.000123", "1e6", "1e7", "123456e3", "1e-5", "99999.9", "0.1", "3.14159", "-0",
+            # the longest printed forms: sign, six digits, exponent
+            "-1.23456e+20", "-9.87654e+30", "-1.23456e-20", "1.23456e+20", "-123456e3", "-1e10", "-1.17549e-38", "-3.40282e+38", "-0.000123456", "-999999"]
     for _ in range(60 if tier == "quick" else 1500):
-        nums.append(("%g" % (rng.randint(-999999, 999999) / (10 ** rng.randint(0, 6)))))
+        nums.append(("%g" % (rng.randint(-999999, 999999) * (10.0 ** rng.randint(-12, 12)))))
     for n in nums:
         out.append({"expr": "(" + n + ")", "kind": "number"})
     def rnd_val(d):
